@@ -304,20 +304,56 @@ def programs3(count, rng):
     return cases
 
 
+def tri_programs(count, rng):
+    """triangulation kernels composed with the edits that shape their face in the SAME transaction: (a) a convex polygon whose
+    side is first bisected (insv) and the new vertex pushed outwards (wv), then fan / fanconvex / earclip; (b) the whole face built
+    by 1-links/1-sews from free darts inside the block, then triangulated.  Layout and two-directional oracle of `kernel_programs`."""
+    cases = []
+    sq = [(0, 0), (2, 0), (2, 2), (0, 2)]
+    out = {1: ("1", "-1/2"), 2: ("5/2", "1"), 3: ("1", "5/2"), 4: ("-1/2", "1")}
+    for c in range(count):
+        kern = rng.choice(["fan", "fan", "fanconvex", "earclip ccw"])
+        if c % 2 == 0:
+            n = 10
+            b1 = [0, 2, 3, 4, 1] + [0] * 6
+            b0 = [0, 4, 1, 2, 3] + [0] * 6
+            init = [gens.load_line(2, n, 0, [b0, b1, [0] * (n + 1)], [0] * (n + 1))] + [f"wv {d} {sq[d - 1][0]} {sq[d - 1][1]}" for d in range(1, 5)]
+            s = rng.randint(1, 4)
+            ops = [f"insv {s} 5 0 -", f"wv 5 {out[s][0]} {out[s][1]}", f"{kern} 1 4 6 7 8 9"]
+            if rng.random() < 0.3:
+                ops.insert(0, f"vid {rng.randint(1, 4)}")
+        else:
+            k = rng.choice([4, 5])
+            pts = [(0, 0), (2, 0), (3, 2), (1, 3), (-1, 2)][:k] if k == 5 else sq
+            n = k + 2 * (k - 3)
+            init = [f"new 2 {n} 0"] + [f"wv {d} {pts[d - 1][0]} {pts[d - 1][1]}" for d in range(1, k + 1)]
+            links = [f"{rng.choice(['link', 'sew'])} 1 {d} {d % k + 1}" for d in range(1, k + 1)]
+            pre = rng.randint(0, k - 1)          # some sides already exist before the block
+            init += ["f" + x for x in links[:pre]]
+            ops = links[pre:] + [f"{kern} 1 {2 * (k - 3)} " + " ".join(str(d) for d in range(k + 1, n + 1))]
+        lines = init + ["snap"] + ops + ["snap"] + init + ["tx"] + ops + ["endtx", "snap"]
+        cases.append(Case(f"t{c}", lines, oracle="c08k", meta={"sig": "tri-program", "k": len(ops), "ninit": len(init)}))
+    return cases
+
+
 def remesh_programs(count, rng):
     """separate stream (C15 kernels): programs of swap / cut / collapse mixed with core operations on small split grids (with and
     without anchors), run as a sequence of single transactions and as one block; same layout and oracle as `kernel_programs`"""
     from props import c15
     cases = []
-    cfgs = [(1, 1, 0, False), (2, 1, 0, False), (2, 2, 0, False), (2, 1, 224, True), (2, 2, 225, True)]
+    cfgs = [(1, 1, 0, False), (2, 1, 0, False), (2, 2, 0, False), (2, 1, 224, True), (2, 2, 225, True), (2, 2, 224, True), (3, 2, 224, True)]
     for c in range(count):
         nx, ny, mask, anchors = rng.choice(cfgs)
         pre, g = c15.setup(nx, ny, mask, rng, anchors)
         init = list(pre) + ["add 12"]
         sp = list(range(g.n, g.n + 12))
         ops = []
+        focus = []
         for _ in range(rng.randint(1, 3)):
-            e = rng.choice(g.linked)
+            # later kernels work on the darts the earlier ones of the SAME program just edited (same edge, its neighbours)
+            e = rng.choice(focus) if focus and rng.random() < 0.6 else rng.choice(g.linked)
+            focus += [e, e, g.b[1][e], g.b[0][e]] + ([g.b[2][e]] if g.b[2][e] else [])
+            focus = [x for x in focus if x]
             r = rng.random()
             if r < 0.25:
                 ops.append(f"swap {e}")
@@ -348,11 +384,13 @@ def run(tier, seed):
     rk = hv.campaign(kernel_programs(4000 if tier == "quick" else 40000, rng), oracle_c08k, max_report=30)
     rk["violations"] = dedupe_k(rk["violations"])
     rr = hv.campaign(remesh_programs(1500 if tier == "quick" else 20000, rng), oracle_c08k, max_report=30)
+    rt = hv.campaign(tri_programs(1500 if tier == "quick" else 20000, rng), oracle_c08k, max_report=30)
     r3 = hv.campaign(programs3(8000 if tier == "quick" else 120000, rng), oracle_c08k, max_report=30)
     res = hv.merge_results([("random straight-line programs, sequence vs one block", r),
                             ("3-D programs (CMap3: links/sews of dimensions 1-3 depending on images written earlier in the program)", r3),
                             ("kernels with non-transactional reads after edits of their spare darts (scan_tx hit list)", rk),
-                            ("remeshing kernels (swap / cut / collapse) composed with core operations", rr)])
+                            ("remeshing kernels (swap / cut / collapse) composed with core operations", rr),
+                            ("triangulation kernels after edits of their face in the same transaction", rt)])
     res["stats"]["all_ok_programs"] = N_ALLOK[0]
     return res
 
